@@ -519,8 +519,15 @@ void Node::schedule_assigned_fetch(const protocol::AnnouncePayload& payload) {
         state.chunk_id = payload.chunk_id;
         state.enqueue_time = now;
         state.attempts = 0;
-    } else if (state.peer_id != payload.peer_id) {
-        state.attempts = 0;
+    } else {
+        if (state.in_flight) {
+            // The outstanding request of the previous assignment is abandoned below
+            // (in_flight is reset): release the provider's in-flight slot first.
+            note_dispatch_end(state);
+        }
+        if (state.peer_id != payload.peer_id) {
+            state.attempts = 0;
+        }
     }
 
     state.peer_id = payload.peer_id;
